@@ -103,3 +103,12 @@ Theorem C04_rejected_leaves_project :
 Proof. exact c04a_rejected_leaves_project. Qed.
 Print Assumptions C04_delete_without_effect.
 Print Assumptions C04_rejected_leaves_project.
+
+(* what a rejected (or any) request may leave behind in the light tables, completed: on every transaction of every thread rows of
+   projects / users / consumer types are only added, never removed - and so over any schedule *)
+Theorem C04_aux_only_grow : forall cf t d, aux_le d (snd (astep cf t d)).
+Proof. exact c04a_aux_grow. Qed.
+Print Assumptions C04_aux_only_grow.
+Theorem C04_aux_only_grow_all_schedules : forall cf s ts d, aux_le d (snd (a_run_sched cf s ts d)).
+Proof. exact c04a_aux_grow_sched. Qed.
+Print Assumptions C04_aux_only_grow_all_schedules.
